@@ -193,6 +193,7 @@ func (ex *Exec) step(in ssa.Instruction) {
 	case *ssa.Send:
 		ch := ex.val(x.Chan)
 		v := ex.val(x.X)
+		ex.chanInvSend(x.Chan, v, x.Pos())
 		ex.panicCheck("nilchan", True, x.Pos(), "")
 		ex.emit(ex.chanEvent(evSend, ch.T, v))
 	case *ssa.Select:
@@ -320,6 +321,7 @@ func (ex *Exec) stepUnOp(x *ssa.UnOp) {
 		}
 		ex.emit(ex.chanEvent(evRecv, v.T, got))
 		ex.timerRecv(v.T)
+		ex.chanInvRecv(x.X, got)
 		ex.setVal(x, res)
 	case token.XOR:
 		ex.setVal(x, Val{T: ex.D.Fn("bitnot", SInt, v.T)})
@@ -859,4 +861,23 @@ func isGroundTerm(t *Term) bool {
 		}
 	})
 	return ok
+}
+
+// Channel invariants (chan_nonnil Type.field): every value sent on the channel
+// stored in that field is non-nil (an obligation at each send), so every value
+// received from it may be assumed non-nil.
+func (ex *Exec) chanInvRecv(ch ssa.Value, got Val) {
+	if f, ok := fieldOf(ch); ok {
+		if _, has := ex.V.db.ChanNonNil[f]; has && got.T != nil && got.T.S == SInt {
+			ex.assumeHere(Neq(got.T, IntLit(0)))
+		}
+	}
+}
+
+func (ex *Exec) chanInvSend(ch ssa.Value, v Val, pos token.Pos) {
+	if f, ok := fieldOf(ch); ok {
+		if tags, has := ex.V.db.ChanNonNil[f]; has && v.T != nil && v.T.S == SInt {
+			ex.oblige("chaninv:"+f, tags, Neq(v.T, IntLit(0)), pos, "value sent on "+f+" is non-nil")
+		}
+	}
 }
